@@ -4,6 +4,7 @@ import EpgVerif.Model.DiffSM
 import EpgVerif.Model.Jet
 import EpgVerif.Gen.MathTable
 import EpgVerif.Model.Coll
+import EpgVerif.Model.Shape
 /-
   Line-protocol driver over the executable model at `K := CF` (DESIGN Appendix A).
   One request per line; floats travel as the decimal of their IEEE-754 bits.
@@ -258,6 +259,10 @@ def step (d : DState) (line : String) : DState × List String :=
   | ["dump"] => (d, [dumpSM d.sm])
   | ["dumpeq"] => (d, [dumpEq d.sm])
   | "sexpr" :: rest => (d, [sexprCmd rest])
+  | "bcast" :: shapes =>
+      (d, [match Shp.broadcastAll (shapes.map shapeOfTok) with
+           | some r => s!"shape {showShape r}"
+           | none => "err ValueError"])
   | "cnew" :: _ | "cset" :: _ | "cpop" :: _ | "cresize" :: _ | "cexpand" :: _ | "creduce" :: _ | "cbroadcast" :: _ =>
       let (c', out) := collCmd d.coll toks
       ({ d with coll := c' }, [out])
